@@ -22,7 +22,8 @@ RULE = ('(a) seeded 2-D integrator histories: chunks / predict / set_pva, initia
         '+-3 g with large tilt, initial and overwritten states with VD up to +-50 m/s; (b) seeded 2-D filter schedules (as C09 / '
         'C10) with an initial state whose VD is non-zero; non-trivial = non-zero supplied VD or non-level specific force or a '
         'filter run (the existing 2-D tests are level and drop the affected columns); distinct = distinct seeds'
-        ' Round 3: measurement objects whose data columns are in another order, with the vertical measured component far off (499 m / 777 m/s): the 2-D residual must not contain it.')
+        ' Round 3: measurement objects whose data columns are in another order, with the vertical measured component far off (499 m / 777 m/s): the 2-D residual must not contain it.'
+        ' Round 5: with_altitude=False given as numpy.False_ in every other run.')
 ASSUMPTIONS = ['zero means == 0.0 (either sign of zero); altitude equality is bitwise']
 REQUIRED_OBS = ['vertical_row_semantics_checked', 'coarse_initial_position_runs', 'twoD_rows_checked', 'set_pva_calls', 'predict_calls', 'filter_rows_checked', 'sd_tables_checked',
                 'measurement_rows_checked', 'feedback_runs', 'feedforward_runs']
